@@ -1,7 +1,7 @@
 (* C08 -- Corrupt scan-line times are repaired, and times are always returned.
    Statements only; proofs in Proofs/P_C08.v and Proofs/P_C03.v. *)
 From Coq Require Import ZArith List Bool Arith Lia.
-From PV Require Import Median Calendar M_Times P_C03 P_C08.
+From PV Require Import Median Calendar M_Times M_ScanNo P_C03 P_C08.
 Import ListNotations.
 Open Scope Z_scope.
 
@@ -44,6 +44,19 @@ Theorem C08_repairs_refuted :
   nth 45%nat (get_times ex_tp ex_th r_nums r_years r_jdays r_msecs (Some 992563170000)) 0 - nth 45%nat r_truth 0 = 30000.
 Proof. exact repairs_refuted. Qed.
 
+(* A second way in which the end-to-end statement is false (finding F-C08-3): all line numbers, the header and the
+   first record intact, 2 of 200 records with garbage times -- the line-number sanitising removes the intact FIRST record
+   of this pass with two data gaps, the repair anchors on the corrupted second record, and all 199 returned times are
+   12 h 43 min off.  f3_out / f3_times compose pod_sanitize and get_times as the reader does. *)
+Theorem C08_first_record_refuted :
+  length f3_nums = 200%nat /\ monotone f3_nums = true /\
+  length (filter (fun r => negb (trip_eqb (snd r) (2000, 236, 54136620 + (fst r - 30) * 500))) f3_recs) = 2%nat /\
+  option_map snd (hd_error f3_recs) = Some (2000, 236, 54136620) /\
+  map fst f3_out = tl f3_nums /\
+  length f3_times = 199%nat /\
+  forallb (fun p => snd p - f3_truth (fst p) =? 45781335) (combine (tl f3_nums) f3_times) = true.
+Proof. exact first_record_refuted. Qed.
+
 Theorem C08_repairs_partial : forall tp th nums years jdays msecs truth h c,
   length years = length nums -> length jdays = length nums -> length msecs = length nums ->
   monotone nums = true -> length truth = length nums -> 0 <= max_diff_ideal th ->
@@ -65,6 +78,7 @@ Print Assumptions C08_total.
 Print Assumptions C08_fallback.
 Print Assumptions C08_stage2_repairs.
 Print Assumptions C08_repairs_refuted.
+Print Assumptions C08_first_record_refuted.
 Print Assumptions C08_repairs_partial.
 
 (* non-vacuity of the partial statement: a 40-line GAC pass from 2001-06-14 10:00:00 whose lines 9, 10 and 23 carry garbage
